@@ -204,7 +204,9 @@ def _r3_tick_fold(L, repo):
     for F0 in (1000, 0, HYPER - 1):
         fns = [(F0 - 2) % HYPER, F0, (F0 + 1) % HYPER, (F0 - 1) % HYPER, F0, (F0 + HYPER // 2) % HYPER,
                (F0 - (HYPER // 2 - 1)) % HYPER, (F0 + 5) % HYPER]
-        queue = [{"fn": f, "tn": i % 8, "ident": i, "desc_hdr": (lambda a: "fn=.. tn=..")} for i, f in enumerate(fns)]
+        # two of the bursts due in this tick (indices 1 and 4) share the timeslot number as well: nothing in the property makes
+        # (FN, TN) a key, each accepted burst goes on the air
+        queue = [{"fn": f, "tn": i % 3, "ident": i, "desc_hdr": (lambda a: "fn=.. tn=..")} for i, f in enumerate(fns)]
         sent = []
         warned = []
 
@@ -231,10 +233,10 @@ def _r3_tick_fold(L, repo):
     for F0, ws, gs_, wl, gl, n_stale, n_warn in rows:
         L.ob("C03.R3", F_, fn_, "tick of frame %d: each of the %d bursts whose frame has passed is reported (warning / error log line)" % (F0, n_stale),
              "at least %d log lines" % n_stale, "%d log lines" % n_warn, n_warn >= n_stale, fd.lineno)
-        L.require("C03.R3", F_, fn_, "tick of frame %d: exactly the bursts queued for this frame go on the air, with their own frame number, in queue order" % F0,
-                  ws, gs_, line=fd.lineno)
-        L.require("C03.R3", F_, fn_, "tick of frame %d: bursts for later frames stay queued in order, everything else has left the queue" % F0,
-                  wl, gl, line=fd.lineno)
+        L.require("C03.R3", F_, fn_, "tick of frame %d: exactly the bursts queued for this frame go on the air, each once, with their own frame number" % F0,
+                  sorted(ws), sorted(gs_, key=repr), line=fd.lineno)
+        L.require("C03.R3", F_, fn_, "tick of frame %d: bursts for later frames stay queued, everything else has left the queue" % F0,
+                  sorted(wl), sorted(gl, key=repr), line=fd.lineno)
     return True
 
 
